@@ -19,7 +19,7 @@ from koala import voronization
 
 DRIVERS = ("c18",)
 MODEL_TARGETS = ["Model/Marker.vo"]
-TARGETS = ["Proofs/MarkerFacts.vo"]
+TARGETS = ["Proofs/MarkerFacts.vo", "Proofs/MarkerMx.vo", "Proofs/MarkerBridge.vo"]
 LEVEL = "proof"
 TRUST = [
     "hand-written Gallina model coq/Model/Marker.v of chern_number.py (list-of-lists matrix product, np.diag both ways, strict step function): modelled, not verified; "
@@ -233,7 +233,7 @@ def eval_exact(ctx, cases, label):
         vx = [str(V)] + [hx(x) for x in xs]
         vy = [str(V)] + [hx(y) for y in ys]
         lat = Lattice(pos.copy(), np.asarray(edges).copy(), np.asarray(crossing).copy())
-        items = [("chern", None, " ".join(["chern"] + mt + vx + vy))]
+        items = [("proj", None, " ".join(["proj", hx(D)] + mt)), ("chern", None, " ".join(["chern"] + mt + vx + vy))]
         for name, ch in chs:
             X, Y = int(Fraction(ch[0]) * S), int(Fraction(ch[1]) * S)
             items.append(("crosshair:" + name, ch, " ".join(["crosshair"] + mt + vx + vy + [hx(X), hx(Y)])))
@@ -251,6 +251,12 @@ def eval_exact(ctx, cases, label):
             o = outs[oi]
             oi += 1
             case = dict(c, what=what, crosshair=ch)
+            if what == "proj":
+                # the proved-sound checker gz_projb (Proofs/MarkerBridge.v gz_projb_sound): the input satisfies the theorems' hypotheses
+                if o.get("proj") != ["1"]:
+                    raise RuntimeError(f"generator bug: extracted gz_projb rejects the exact projector of {case}: {o}")
+                res.extra["inputs_accepted_by_proved_projector_check"] = res.extra.get("inputs_accepted_by_proved_projector_check", 0) + 1
+                continue
             if "error" in o or o["marker"][0] == "ERR":
                 raise RuntimeError(f"driver error on {case}: {o}")
             cur = Cursor(o["marker"])
@@ -293,8 +299,9 @@ def eval_exact(ctx, cases, label):
         res.hist_rank = getattr(res, "hist_rank", {})
         key = f"V={V}"
         res.hist_rank[key] = res.hist_rank.get(key, 0) + 1
-        res.sample({"case": c, "V": V, "rank": c["rank"], "common_denominator_bits": D.bit_length(),
-                    "chern_marker_over_4pi_exact": [str(x) for x in exact_marker(P, fx, fy)][:4]})
+        if nontriv:
+          res.sample({"case": c, "V": V, "rank": c["rank"], "common_denominator_bits": D.bit_length(),
+                      "chern_marker_over_4pi_exact": [str(x) for x in exact_marker(P, fx, fy)][:4]})
     res.extra["exactK_V_histogram"] = getattr(res, "hist_rank", {})
 
 
